@@ -2,7 +2,7 @@
 # usage: tools/confirm_seed.sh <ID> [name]  -- independent confirmation of a seeded change in a scratch worktree:
 #   builds everything with the patch, runs the whole pinned test suite (must fail only the baseline's always-failing binaries),
 #   runs the demonstration with the patch (must fail) and without it (must pass). Result in seeded/<name>/confirm.log
-ID=$1; NAME=${2:-$ID}; S=/verif/seeded/$NAME; WT=/tmp/wt-$ID; LOG=$S/confirm.log
+ID=$1; NAME=${2:-$ID}; S=/verif/seeded/$NAME; WT=/tmp/wt-$NAME; LOG=$S/confirm.log
 BASE_FAIL="client_function_test test-checksum test-iouring test-ipv6 test-rpc-message test-socket test-throttle"
 exec > $LOG 2>&1
 echo "== confirm $NAME $(date)"
@@ -19,8 +19,8 @@ echo "SUITE_EXTRA_FAILURES=[$EXTRA ]"
 # a test that failed in the parallel (loaded) run is re-run alone: timing-sensitive tests fail under load with or without a patch
 STILL=""
 for t in $EXTRA; do
-  ok=0; for k in 1 2 3; do if timeout 1500 ctest --test-dir $WT/_build -R "^$t\$" --timeout 900 > $S/rerun_$t.txt 2>&1; then ok=1; break; fi; done
-  if [ $ok = 1 ]; then echo "rerun alone: $t PASSED (load-sensitive in the parallel run)"; else echo "rerun alone: $t FAILED 3 times"; STILL="$STILL $t"; fi
+  ok=0; for k in 1 2 3; do if timeout 1500 ctest --test-dir $WT/_build -R "^$t\$" --timeout 900 --output-on-failure > $S/rerun_$t.txt 2>&1; then ok=1; break; fi; done
+  if [ $ok = 1 ]; then echo "rerun alone: $t PASSED (load-sensitive in the parallel run)"; else echo "rerun alone: $t FAILED 3 times; failing cases: $(grep -E "^\[  FAILED  \] [A-Za-z_]+\.[A-Za-z_0-9]+" $S/rerun_$t.txt | sort -u | tr "\n" " ")"; STILL="$STILL $t"; fi
 done
 echo "SUITE_FAILURES_AFTER_RERUN=[$STILL ]"
 echo "== demo with patch (expected: fails)"
